@@ -483,7 +483,44 @@ def pinword_dfa_cases(draw):
     return {"u": u, "w": "".join(pieces)}
 
 
+def check_long_element(case):
+    """A basis with an element of 7 points that is a pin permutation although it is an inflation
+    of a simple permutation with two non-trivial blocks (the exceptional case of the
+    characterisation of pin permutations): the from-scratch automaton against the semantic
+    oracle on every direction word up to length 9 (thorough: also equivalence with the database
+    route).  About a minute per process (all pin words of length 7)."""
+    basis = case["basis"]
+    P = [Perm(b) for b in basis]
+    scratch = PW.make_dfa_for_basis(P)
+    for w in _words_upto(case.get("L", 9)):
+        want = sem_accepts(basis, w)
+        if scratch.accepts_input(w) != want:
+            return BAD("long_element_accepts", {"basis": basis, "word": w, "got": not want, "want": want})
+    if case.get("db"):
+        w = _equivalent(scratch, PW.make_dfa_for_basis(P, use_db=True))
+        if w is not None:
+            return BAD("long_element_routes_differ", {"basis": basis, "distinguishing_word": w})
+    return OK(True, "long_element")
+
+
+CHECKS["long_element"] = check_long_element
+
+# 1263405 = the simple permutation 14203 with two entries inflated by 12; LULDLURD... pin sequences draw it
+LONG_ELEMENTS = [
+    {"basis": [[1, 2, 6, 3, 4, 0, 5]]},
+    {"basis": [[0, 1, 2, 3, 4, 5], [1, 2, 6, 3, 4, 0, 5]]},
+    {"basis": [[5, 4, 0, 3, 2, 6, 1]]},
+]
+
+
 def shard_generated(acc, shard, nshards, n_bases, max_len, L):
+    count = 1 if n_bases < 20 else len(LONG_ELEMENTS)
+    for i, case in enumerate(LONG_ELEMENTS[:count]):
+        if (nshards - 1 - i) % nshards == shard:
+            os.chdir(engine.fresh_dir("dfa7"))
+            acc.record("long_element", check_long_element, dict(case, db=count > 1))
+    if shard >= nshards - count and nshards > count:
+        return  # these shards are spent on the 7-point elements
     engine.hyp_run(acc, "pinword_dfa", check_pinword_dfa, pinword_dfa_cases(), 60 * n_bases, shard)
     os.chdir(engine.fresh_dir("dfa"))
     import hypothesis
